@@ -5,8 +5,8 @@
 # against it (applied to /repo, reverted straight afterwards) and files everything under seeded/<ID>/.
 set -u
 id="$1"; demo="$2"; shift 2
-wt=/tmp/mut/$id
-out=/verif/seeded/$id
+wt=${MUT_ROOT:-/tmp/mut}/$id
+out=/verif/seeded/$id${SEEDED_SUFFIX:-}
 mkdir -p "$out"
 cp -r "$wt"/OUT/. "$out"/ 2>/dev/null; rm -f "$out"/go.mod
 cd "$wt" || exit 2
@@ -18,18 +18,18 @@ echo "## demo WITH change: $demo" >> "$log"
 tail -5 /tmp/demo_with.$id | tr -cd '\11\12\40-\176' >> "$log"; echo "rc=$rc_with" >> "$log"
 echo "## existing suite WITH change (demo file moved away)" >> "$log"
 demofiles=$(git status --porcelain | grep '^??' | awk '{print $2}' | grep -v '^OUT' )
-mkdir -p /tmp/mut/stash_$id; for f in $demofiles; do mkdir -p /tmp/mut/stash_$id/$(dirname $f); mv $f /tmp/mut/stash_$id/$f; done
+mkdir -p ${MUT_ROOT:-/tmp/mut}/stash_$id; for f in $demofiles; do mkdir -p ${MUT_ROOT:-/tmp/mut}/stash_$id/$(dirname $f); mv $f ${MUT_ROOT:-/tmp/mut}/stash_$id/$f; done
 go test -vet=off -count=1 ./... 2>&1 | grep -v "no test files\|^ok\|hdf5\|compilation terminated\|#include\|\^~" | tail -8 >> "$log"
 suite_fail=$(go test -vet=off -count=1 ./... 2>&1 | grep -c "^FAIL.*semadb/\(cluster\|shard\|httpapi\|utils\|models\|diskstore\|conversion\|distance\)")
 echo "failing non-hdf5 packages: $suite_fail" >> "$log"
-for f in $demofiles; do mv /tmp/mut/stash_$id/$f $f; done
+for f in $demofiles; do mv ${MUT_ROOT:-/tmp/mut}/stash_$id/$f $f; done
 echo "## demo WITHOUT change" >> "$log"
 git apply -R OUT/patch.diff >> "$log" 2>&1
 ( eval "$demo" ) > /tmp/demo_without.$id 2>&1; rc_without=$?
 tail -3 /tmp/demo_without.$id | tr -cd '\11\12\40-\176' >> "$log"; echo "rc=$rc_without" >> "$log"
 git apply OUT/patch.diff
 echo "## /verif checks against the change" >> "$log"
-/verif/scripts/try_mutant.sh "$out/patch.diff" "$@" > /tmp/checks.$id 2>&1
+"${VERIF_DIR:-/verif}"/scripts/try_mutant.sh "$out/patch.diff" "$@" > /tmp/checks.$id 2>&1
 cat /tmp/checks.$id >> "$log"
 caught=$(grep -c "^VIOLATION" /tmp/checks.$id)
 echo "RESULT id=$id demo_with_rc=$rc_with demo_without_rc=$rc_without suite_failing_pkgs=$suite_fail violations_reported=$caught"
